@@ -11,6 +11,8 @@ CONSTANTS
   Grace = 2
   StaleFirstRead = TRUE
   InFlight = FALSE
+  StampSteps = {1}
+  CrossCodeOpen = TRUE
   MaxEvents = 4
   MaxMsgs = 3
 CONSTRAINT Bound
